@@ -5,6 +5,7 @@ EXTENDS StateSvcImpl
 
 NK0  == <<0>>
 NK00 == <<0, 0>>
+NK2  == <<2>>
 NK12 == <<1, 2>>
 NK23 == <<2, 3>>
 NK123 == <<1, 2, 3>>
@@ -33,4 +34,5 @@ GoodR  == {"good"}
 SetR   == {"good", "otherset"}
 ChgV   == {"otherheight", "oldset", "byzgood", "wrongidx"}
 ByzV   == {"byzgood", "fake"}
+IdxV   == {"wrongidx"}
 =============================================================================
